@@ -35,19 +35,19 @@ Proof. destruct a, b; simpl; intros H; try reflexivity; try (pose proof (addr_no
 (* ------------------------------------------------------------------ the push: DataRow::~DataRow *)
 (* what the generated loop computes when some attempt within the fuel is not spurious: link word := head, head := raw
    (pointwise: the development uses no functional extensionality) *)
-Lemma destroy_loop_spec sp raw : forall fuel mem,
+Lemma destroy_loop_spec sp raw : forall fuel mem mo,
   raw <> hd -> (exists k, (k < fuel)%nat /\ sp k = false) ->
-  exists m', destroy_loop0 sp fuel hd raw mem = Ok m' /\
+  exists m', destroy_loop0 sp fuel hd raw mem mo = Ok (m', Z.min mo 5) /\
     forall a, m' a = if a =? hd then raw else if a =? raw then mem hd else mem a.
 Proof.
-  induction fuel; intros mem Hr [k [Hk Hs]]; [lia|].
+  induction fuel; intros mem mo Hr [k [Hk Hs]]; [lia|].
   rewrite destroy_loop0_eq. unfold id_addr. cbv zeta.
   assert (E : mem_store mem (mem hd) raw hd = mem hd) by (unfold mem_store; apply GenPrelude.upd_other; auto).
   rewrite E, Z.eqb_refl. simpl.
   destruct (sp fuel) eqn:Sf; simpl.
-  - destruct (IHfuel (mem_store mem (mem hd) raw) Hr) as [m' [R Hm]].
+  - destruct (IHfuel (mem_store mem (mem hd) raw) (Z.min mo 5) Hr) as [m' [R Hm]].
     { exists k. split; auto. destruct (Nat.eq_dec k fuel); [subst; congruence|lia]. }
-    exists m'. split; auto. intros a. rewrite Hm, E.
+    exists m'. split; [rewrite R; f_equal; f_equal; lia|]. intros a. rewrite Hm, E.
     destruct (Z.eqb_spec a hd); auto. destruct (Z.eqb_spec a raw); auto.
     unfold mem_store. apply GenPrelude.upd_other; auto.
   - eexists; split; [reflexivity|]. intros a. unfold mem_store, GenPrelude.upd.
@@ -77,11 +77,11 @@ Theorem generated_destructor_is_model_push s t r sp fuel cl :
   dpcs s t = Idle -> status s r = Detached -> (exists k, (k < fuel)%nat /\ sp k = false) ->
   exists s' m',
     run s [DBegin t r; DLoad t; DLink t; DCas t false] = Some s' /\
-    destroy sp fuel (addr r) hd cl (mem_of s) = Ok (tt, m') /\
+    destroy sp fuel (addr r) hd cl (mem_of s) 5 = Ok (tt, m', 5) /\
     forall a, m' a = mem_of s' a.
 Proof.
   intros Hi Hd Hs. destruct (model_push s t r Hi Hd) as [s' [R [H1 [H2 [H3 _]]]]].
-  destruct (destroy_loop_spec sp (addr r) fuel (mem_of s) (addr_neq_hd r) Hs) as [m' [L Hm]].
+  destruct (destroy_loop_spec sp (addr r) fuel (mem_of s) 5 (addr_neq_hd r) Hs) as [m' [L Hm]].
   exists s', m'. split; auto. split.
   - unfold destroy. destruct (Z.eqb_spec (addr r) 0); [exfalso; eapply addr_nonnull; eauto|].
     unfold fuel_of_destroy. rewrite L. reflexivity.
@@ -97,7 +97,7 @@ Proof.
 Qed.
 
 (* the guard `if (mRaw == nullptr) return;`: destroying an empty Row object touches nothing *)
-Theorem generated_destructor_of_empty_row sp fuel fl cl mem : destroy sp fuel 0 fl cl mem = Ok (tt, mem).
+Theorem generated_destructor_of_empty_row sp fuel fl cl mem mo : destroy sp fuel 0 fl cl mem mo = Ok (tt, mem, mo).
 Proof. reflexivity. Qed.
 
 (* ------------------------------------------------------------------ the take-all and walk: pvDeallocateFreeRaws *)
@@ -147,7 +147,7 @@ Theorem generated_drain_is_model_drain s pool fuel :
   inv s -> own s = OIdle -> (length (shared s) < fuel)%nat ->
   exists s' m',
     run s (OExchange :: walk_labels (length (shared s))) = Some s' /\
-    pvDeallocateFreeRaws hd fuel (mem_of s) pool = Ok (tt, m', log_of pool (shared s)) /\
+    pvDeallocateFreeRaws hd fuel (mem_of s) pool 5 = Ok (tt, m', log_of pool (shared s), 5) /\
     m' hd = 0 /\ head s' = None /\ own s' = OIdle /\
     reclaimed s' = rev (map (fun r => (r, gen s r)) (shared s)) ++ reclaimed s.
 Proof.
@@ -178,16 +178,33 @@ Proof.
 Qed.
 
 Theorem generated_allocate_skips_drain_iff_head_null pa fuel s pool :
-  head s = None -> pvAllocateRaw hd pa fuel (mem_of s) pool = Ok (pa pool, mem_of s, pool).
+  head s = None -> pvAllocateRaw hd pa fuel (mem_of s) pool 5 = Ok (pa pool, mem_of s, pool, 5).
 Proof. intros H. unfold pvAllocateRaw. rewrite mem_of_hd, H. reflexivity. Qed.
 
 Theorem generated_allocate_drains_when_head_nonnull pa fuel s pool :
   inv s -> own s = OIdle -> head s <> None -> (length (shared s) < fuel)%nat ->
-  exists m', pvAllocateRaw hd pa fuel (mem_of s) pool = Ok (pa (log_of pool (shared s)), m', log_of pool (shared s)) /\ m' hd = 0.
+  exists m', pvAllocateRaw hd pa fuel (mem_of s) pool 5 = Ok (pa (log_of pool (shared s)), m', log_of pool (shared s), 5) /\ m' hd = 0.
 Proof.
   intros I Ho Hn Hf. destruct (generated_drain_is_model_drain s pool fuel I Ho Hf) as [s' [m' [_ [D [Z0 _]]]]].
   exists m'. split; auto. unfold pvAllocateRaw. rewrite mem_of_hd.
   destruct (head s) as [r|]; [|congruence]. simpl encp.
   destruct (Z.eqb_spec (addr r) 0); [exfalso; eapply addr_nonnull; eauto|]. simpl negb. cbv iota.
   rewrite D. reflexivity.
+Qed.
+
+(* every atomic operation of the three translated functions uses memory_order_seq_cst: the translated minimum order is 5 (seq_cst)
+   whenever it was 5 before (an explicit weaker order -- seeded change C19-b -- makes these fail) *)
+Theorem generated_destructor_orders_are_seq_cst sp fuel raw mem m' mo :
+  destroy_loop0 sp fuel hd raw mem 5 = Ok (m', mo) -> mo = 5.
+Proof.
+  revert mem. induction fuel; intros mem H; [discriminate|].
+  rewrite destroy_loop0_eq in H. cbv zeta in H. change (Z.min 5 5) with 5 in H.
+  destruct (_ && _) in H; [inversion H; reflexivity|eauto].
+Qed.
+
+Theorem generated_drain_order_is_seq_cst fuel mem pool m' pool' mo :
+  pvDeallocateFreeRaws hd fuel mem pool 5 = Ok (tt, m', pool', mo) -> mo = 5.
+Proof.
+  unfold pvDeallocateFreeRaws. change (Z.min 5 5) with 5. destruct (pvDeallocateFreeRaws_loop0 _ _ _ _) as [[? ?]| | |]; try discriminate.
+  intros H; inversion H; reflexivity.
 Qed.
